@@ -132,10 +132,48 @@ func coreC17() []layCase {
 			out = append(out, layCase{Text: sb.String(), Engine: "elk", Kind: "names"})
 		}
 	}
+	out = append(out, nearOnlyCases()...)
+	return out
+}
+
+// nearOnlyCases: diagrams in which every root shape sits at a near constant (no ordinary
+// content to anchor them): all singles and unordered pairs of constants, some triples, with
+// and without a container - on both engines.
+func nearOnlyCases() []layCase {
+	var out []layCase
+	add := func(text string) {
+		out = append(out, layCase{Text: text, Engine: "dagre", Kind: "near-only"}, layCase{Text: text, Engine: "elk", Kind: "near-only"})
+	}
+	nc := gen.NearConstants
+	for i, a := range nc {
+		add(fmt.Sprintf("a: {near: %s}\n", a))
+		for j := i + 1; j < len(nc); j++ {
+			add(fmt.Sprintf("a: {near: %s}\nb: {near: %s}\n", a, nc[j]))
+			if (i+j)%3 == 0 {
+				k := (i + 2*j + 1) % len(nc)
+				if k != i && k != j {
+					add(fmt.Sprintf("a: {near: %s; x -> y}\nb: {near: %s}\nc: long label here {near: %s}\n", a, nc[j], nc[k]))
+				}
+			}
+		}
+	}
 	return out
 }
 
 func genC17(t *rapid.T) layCase {
+	if gen.Pick(t, "nearonly", 12, 1) == 1 {
+		// every root shape at a near constant
+		n := rapid.IntRange(1, 4).Draw(t, "nn")
+		var sb strings.Builder
+		for i := 0; i < n; i++ {
+			body := ""
+			if rapid.IntRange(0, 3).Draw(t, "cont") == 0 {
+				body = "; p -> q"
+			}
+			fmt.Fprintf(&sb, "n%d: {near: %s%s}\n", i, rapid.SampledFrom(gen.NearConstants).Draw(t, "nc"), body)
+		}
+		return layCase{Text: sb.String(), Engine: rapid.SampledFrom([]string{"dagre", "elk"}).Draw(t, "eng"), Kind: "near-only"}
+	}
 	return genLayCase(t, gen.LayoutDiagramOpts(), "diagram")
 }
 
